@@ -8,7 +8,7 @@ types).  Every program is built through the real facade (get_converter / impl_co
 run on 3 source objects (and 3 vectors of extra arguments) and compared, type-exactly, with the destination constructed
 field-wise by the independent linking model of mc/ref_conv.py.  Also checked: creation succeeds exactly when the model
 says every destination field is linkable and coercible, the source object is left unchanged, impl_converter keeps the
-stub's signature and name.
+stub's signature and name, link_constant(factory=) hands a fresh mutable object to every result.
 """
 import copy
 import enum
@@ -67,7 +67,7 @@ META = {
                  "otherwise) x 2 parameter lists x 2 profiles; F4 the 15 other ordered kind pairs of {dataclass, NamedTuple, "
                  "TypedDict, attrs} (+ dataclass->dataclass with a leading optional field) on the 2-field core x recipes of "
                  "length <=1; F5 10 entry points x 3 parameter styles on 3 shapes, recipes <=1 (length 2 on the core "
-                 "shape); F6 25 constants + 11 factories x 5 positions x 4 destination kinds",
+                 "shape); F6 25 constants + 12 factories x 5 positions x 4 destination kinds",
         "thorough": "shapes S in subsets{a,b,c} x D in subsets{a,b,c,d}; F1 x all 28 type profiles; F2 x 4 parameter lists x 18 "
                     "profiles; F3 both orders of every pair, full alphabet on shapes with <=2 destination fields, 4 profiles; "
                     "F4 x 14 profiles x 5 cores; F5 x 5 profiles; F6 as quick",
@@ -213,9 +213,13 @@ def _fresh7():
     return [7]
 
 
+def _fresh_dec():
+    return [Decimal("1.5")]      # mutable and not renderable as a literal
+
+
 FACTORIES = {
     "list": list, "dict": dict, "tuple": tuple, "str": str, "bytes": bytes, "set": set, "NoneType": type(None),
-    "fresh7": _fresh7, "lambda": lambda: {"k": 7}, "Decimal": Decimal, "int": int,
+    "fresh7": _fresh7, "fresh_dec": _fresh_dec, "lambda": lambda: {"k": 7}, "Decimal": Decimal, "int": int,
 }
 
 
@@ -510,9 +514,24 @@ def _tuplify(x):
 # ------------------------------------------------------------------------------------------------------------
 # evaluation of one program
 
+def _nested_element(prog, fname):
+    """the recipe element aimed at a nested model that occurs inside destination field `fname`"""
+    ts = prog.universe["Dst"].field(fname).type
+    for e in prog.recipe:
+        t = target_of(e)
+        if len(t) == 3 and t[1] != "Dst" and _mentions(ts, t[1]):  # noqa: PLR2004
+            return e
+    return None
+
+
 def feature_of(prog, fname):
     """which provider kind serves destination field `fname` according to the reference (names the signature)"""
     fld = prog.universe["Dst"].field(fname)
+    nested = _nested_element(prog, fname)
+    if nested is not None:
+        name = {"const": "link_constant(value=)", "factory": "link_constant(factory=)", "func": "link_function",
+                "link": "link(from_param)"}.get(nested[0], nested[0])
+        return name + " inside a nested model"
     lk = R.find_link(prog.env, ("Model", "Src"), "Dst", fld, True)
     if lk is None:
         return "unlinked optional field (constructor default)"
@@ -531,8 +550,9 @@ def feature_of(prog, fname):
 
 
 def const_detail(prog, fname):
+    nested = _nested_element(prog, fname)
     for e in prog.recipe:
-        if e[0] == "const" and e[1] == ("field", "Dst", fname):
+        if e[0] == "const" and (e[1] == ("field", "Dst", fname) or e is nested):
             v = OBJECTS[e[2]]
             t = type(v)
             if t not in (bool, int, float) and not isinstance(v, (str, bytes)) and _eq_bool(v):
@@ -540,7 +560,7 @@ def const_detail(prog, fname):
             if _has_tuple1(v):
                 return "one-element tuple"
             return t.__name__
-        if e[0] == "factory" and e[1] == ("field", "Dst", fname):
+        if e[0] == "factory" and (e[1] == ("field", "Dst", fname) or e is nested):
             return e[2]
     return None
 
@@ -614,6 +634,9 @@ def evaluate(case, report):  # noqa: C901, PLR0912, PLR0915
     if entry == "get_converter_named" and conv.__name__ != "my_conv":
         report.violation({"check": "C13", "problem": "name_not_preserved", "feature": "get_converter(name=)"},
                          f"{text}: __name__ {conv.__name__!r} != 'my_conv'", case)
+    factory_fields = [f.name for f in prog.universe["Dst"].fields
+                      if (lk := R.find_link(env, ("Model", "Src"), "Dst", f, True)) is not None and lk.kind == "factory"]
+    produced = {}
     for k in range(3):
         src_obj = prog.source(k)
         before = R.describe_as(env, src_obj, "Src")
@@ -642,6 +665,15 @@ def evaluate(case, report):  # noqa: C901, PLR0912, PLR0915
                              f"{text}: result is a {type(res).__name__}", {**case, "k": k})
             continue
         got = R.describe_as(env, res, "Dst")
+        for name in factory_fields:
+            # extended-usage.rst: "To pass mutable objects you can use factory parameter" - every call gets its own object
+            val = res[name] if isinstance(res, dict) else getattr(res, name)
+            if isinstance(val, (list, dict, set)):
+                if any(val is old for old in produced.get(name, ())):
+                    report.violation({"check": "C13", "problem": "factory_result_shared", "feature": "link_constant(factory=)"},
+                                     f"{text}: field {name!r} holds the very same mutable object in two results", {**case, "k": k})
+                produced.setdefault(name, []).append(val)
+                report.outcome("factory freshness checked")
         if got == want:
             report.outcome("run=equal")
             continue
@@ -779,7 +811,8 @@ def alphabet(S, D, profile, params, core):
                 els.append(("link", ("field", "Src", x), t, "coercer:k1"))
         els.append(("const", t, "const:7"))
         els.append(("factory", t, "factory:fresh7"))
-        for f in (["fm", "fkw"] if core else ["fm", "fp", "fps", "fpa", "fkw", "fkw0", "fmix"]):
+        core_funcs = ["fm", "fkw"] + (["fp", "fps"] if "q" in params and y == focus[0] else [])
+        for f in (core_funcs if core else ["fm", "fp", "fps", "fpa", "fkw", "fkw0", "fmix"]):
             els.append(("func", t, f"func:{f}"))
         for p in params:
             els.append(("link", ("param", p), t, None))
@@ -918,8 +951,8 @@ def gen_f5(tier):
                 els = alphabet(S, D, profile, params, core=True)
                 recs = [[]] + [[e] for e in els]
                 if (S, D) == ("ab", "abd") and (profile == ("U", 0) or tier == "thorough"):
-                    recs += [[e1, e2] for e1 in els for e2 in els if e1 != e2 and e1[0] != e2[0]
-                             and target_of(e1) != target_of(e2)]
+                    recs += [[e1, e2] for i, e1 in enumerate(els) for j, e2 in enumerate(els)
+                             if i != j and e1[0] != e2[0] and (target_of(e1) == target_of(e2) or i < j)]
                 for rec in recs:
                     entries = ENTRIES_PARAMS if params else ENTRIES_NO_PARAMS
                     for entry in entries:
@@ -996,6 +1029,8 @@ def SANITY(report, tier):  # noqa: N802
         problems.append("fewer than 5000 executions compared equal")
     if o["signature checked"] < 200:
         problems.append("fewer than 200 impl_converter signatures compared")
+    if o["factory freshness checked"] < 100:
+        problems.append("fewer than 100 link_constant(factory=) results compared for freshness")
     for fam in FAMILIES:
         if not any(k.startswith(fam + ":") and k.endswith("ref=yes,impl=ok") for k in o):
             problems.append(f"family {fam}: no converter produced")
